@@ -220,6 +220,12 @@ def dateparse(val: str, t: type[DateTimeT]) -> DateTimeT:
             If `val` is not a date string or does not resolve to an instance of
             the target datetime type.
     """
+    if issubclass(t, datetime.time):
+        # pendulum discards the UTC offset of a time-only string.
+        with contextlib.suppress(ValueError):
+            parsed_time = datetime.time.fromisoformat(val)
+            if parsed_time.tzinfo is not None:
+                return parsed_time  # type: ignore[return-value]
     try:
         # When `exact=False`, the only two possibilities are DateTime and Duration.
         # A leading sign marks a negative duration (ISO 8601-2), see `isoformat()`.
